@@ -486,6 +486,7 @@ class SmtLibParser(object):
     def _reset(self):
         """Resets the parser to the initial state"""
         self.cache = SmtLibExecutionCache(self.env)
+        self._pending_let_bindings: List[Dict[str, Any]] = []
         self.logic = None
         mgr = self.env.formula_manager
         self.cache.update({'false': mgr.FALSE(), 'true': mgr.TRUE()})
@@ -668,6 +669,13 @@ class SmtLibParser(object):
         """
         res = self.cache.get(token)
         if res is None:
+            # Non-standard extension kept for backward compatibility: a
+            # name that is otherwise undefined can refer to a previous
+            # binding of the let being parsed
+            for pending in reversed(self._pending_let_bindings):
+                if token in pending:
+                    return pending[token]
+        if res is None:
             if token.startswith("#"):
                 # it is a BitVector
                 value = None
@@ -735,6 +743,8 @@ class SmtLibParser(object):
         # pylint: disable=unused-argument
         self.consume_opening(tokens, "expression")
         newvals = {}
+        # Bindings of this let that are not visible yet (see atom())
+        self._pending_let_bindings.append(newvals)
         current = "("
         self.consume_opening(tokens, "expression")
         while current != ")":
@@ -744,9 +754,14 @@ class SmtLibParser(object):
             vname = self.parse_atom(tokens, "expression")
             expr = cast(Union[str, FNode], assert_not_none(self.get_expression(tokens)))
             newvals[vname] = expr
-            self.cache.bind(vname, expr)
             self.consume_closing(tokens, "expression")
             current = tokens.consume()
+
+        # The bindings of a let are simultaneous: the variables become
+        # visible only in the body, not in the following bindings
+        self._pending_let_bindings.pop()
+        for vname, expr in newvals.items():
+            self.cache.bind(vname, expr)
 
         stack[-1].append(self._exit_let)
         stack[-1].append(newvals.keys())
